@@ -48,8 +48,20 @@ CALCS = {
     "sc3ph": lambda n: sc.calc_sc(n, fault="3ph", case="max", ip=True, ith=True, branch_results=True),
     "sc1ph": lambda n: sc.calc_sc(n, fault="1ph", case="max"),
     "estimate": lambda n: estimate(n, init="flat"),
+    # bus-bus switches are temporarily given an impedance (net.switch.z_ohm) instead of fusing the buses
+    "estimate_bb": lambda n: estimate(n, init="flat", fuse_buses_with_bb_switch=None),
     "contingency": lambda n: run_contingency(n, {"line": {"index": list(n.line.index)[:2]}}, numba=False),
 }
+
+
+def _eval_raising_for_second_outage(net, **kw):
+    """contingency_evaluation_function (public parameter of run_contingency): a power flow that does not converge for
+    one particular outage"""
+    from pandapower.auxiliary import LoadflowNotConverged
+    out = [i for i in net.line.index if not net.line.at[i, "in_service"]]
+    if out and out[0] == list(net.line.index)[1]:
+        raise LoadflowNotConverged("outage of line %s does not converge" % out[0])
+    pp.runpp(net, **kw)
 # variants that fail by themselves
 NATURAL = {
     "runpp_not_converged": lambda n: pp.runpp(n, numba=False, max_iteration=1, init="flat"),
@@ -57,9 +69,23 @@ NATURAL = {
     "runopp_infeasible": lambda n: pp.runopp(n, numba=False, calculate_voltage_angles=False),
     "sc3ph_inverse_y": lambda n: sc.calc_sc(n, fault="3ph", case="max", inverse_y=True),
     "sc_invalid_fault": lambda n: sc.calc_sc(n, fault="4ph"),
+    "estimate_bb_not_converged": lambda n: estimate(n, init="flat", fuse_buses_with_bb_switch=None, maximum_iterations=1),
+    "estimate_bb_bad_measurement": lambda n: estimate(n, init="flat", fuse_buses_with_bb_switch=None),
+    "estimate_not_converged": lambda n: estimate(n, init="flat", maximum_iterations=1),
+    "contingency_raise_errors": lambda n: run_contingency(n, {"line": {"index": list(n.line.index)[:3]}}, numba=False, raise_errors=True,
+                                                          contingency_evaluation_function=_eval_raising_for_second_outage),
+    "contingency_failing_case_logged": lambda n: run_contingency(n, {"line": {"index": list(n.line.index)[:3]}}, numba=False,
+                                                                 contingency_evaluation_function=_eval_raising_for_second_outage),
 }
 # edits made to the copy BEFORE the snapshot is taken (part of the input, not of the calculation)
-PREPARE = {"runopp_infeasible": lambda n: n.load.__setitem__("p_mw", n.load.p_mw * 500.)}
+PREPARE = {"runopp_infeasible": lambda n: n.load.__setitem__("p_mw", n.load.p_mw * 500.),
+           "estimate_bb_bad_measurement": lambda n: n.measurement.__setitem__("element", [999] + list(n.measurement.element.values[1:]))}
+K_EST = "C08-estimate-bb-switch-no-restore"
+# helper columns that calculations are known to add to element tables (no pre-existing value or row is touched)
+ALLOWED_NEW_COLUMNS = {("gen", "power_station_trafo"), ("gen", "pg_percent"), ("gen", "min_p_mw"), ("gen", "max_p_mw"),
+                       ("gen", "min_q_mvar"), ("gen", "max_q_mvar"), ("gen", "controllable"),
+                       ("trafo", "power_station_unit"), ("trafo", "pt_percent"), ("trafo", "oltc"), ("trafo", "xn_ohm"),
+                       ("trafo", "_ppc_idx"), ("trafo", "k_st")}
 MODEL_CALC = {"runpp": 0, "rundcpp": 0, "runopp": 1, "rundcopp": 1, "sc3ph": 2, "sc1ph": 3, "runpp_3ph": 4}
 
 
@@ -71,12 +97,12 @@ def user_vsc_with_b2b_name(net):
     return [i for i in net.vsc.index if net.vsc.at[i, "name"] in names]
 
 
-def judge(ctx, before_net_guard, s0, net, case, stack=None):
-    """compare snapshots; classify"""
+def judge(ctx, before_net_guard, s0, net, case, stack=None, raised=None):
+    """compare snapshots; classify.  raised = name of the exception class that left the calculation (None: normal return)"""
     d = S.diff(s0, S.snapshot(net), allow_new_columns=False)
     viol = []
     for t, kind, detail in d:
-        if kind == "column_added":
+        if kind == "column_added" and (t, detail) in ALLOWED_NEW_COLUMNS:
             ctx.count("column_added:%s.%s" % (t, detail))
         elif kind == "dtype_changed":
             ctx.count("dtype_changed:%s.%s" % (t, detail.split(":")[0]))
@@ -85,7 +111,12 @@ def judge(ctx, before_net_guard, s0, net, case, stack=None):
     if not viol:
         return True
     kind = "spec"
-    ctx.violation(kind, "element tables changed by %s: %s" % (case.get("calc"), viol[:4]), case)
+    # recorded finding: estimate(fuse_buses_with_bb_switch != 'all') that RAISES does not undo set_bb_switch_impedance
+    if str(case.get("calc", "")).startswith("estimate_bb") and raised is not None and \
+            all(t == "switch" and ((k == "value_changed" and det.startswith("z_ohm[")) or (k == "column_added" and det == "z_ohm_ori"))
+                for t, k, det in viol):
+        kind = K_EST
+    ctx.violation(kind, "element tables changed by %s%s: %s" % (case.get("calc"), " (raised %s)" % raised if raised else "", viol[:4]), case)
     return False
 
 
@@ -256,7 +287,7 @@ def observe(ctx, base, calc, fault, runner=None, prepare=None):
             ob.natural = type(e).__name__
     final = digest(net)
     case = {"calc": calc, "fault": list(fault) if fault else None, "net": pp.to_json(base)}
-    judge(ctx, guard, s0, net, case, stack)
+    judge(ctx, guard, s0, net, case, stack, None if outcome else (getattr(ob, "natural", None) or "InjectedFault"))
     k, has_model = model_k(base, calc, fault)
     term = None
     if calc in MODEL_CALC and has_model and (fault is None or ob.fired):
@@ -279,7 +310,7 @@ def model_obs(m):
 def gen_nets(ctx, rng, n):
     out = []
     for k in range(n):
-        net = N.rich_net(rng, n_dcline=[1, 2, 0, 1][k % 4] if k < 4 else None)
+        net = N.rich_net(rng, n_dcline=[1, 2, 0, 1][k % 4] if k < 4 else None, bb_switch=[2, 0, 1, 1][k % 4] if k < 4 else None)
         N.add_measurements(net)
         out.append(net)
     return out
@@ -315,7 +346,7 @@ def correspondence(ctx, rng, nets, b2b):
         evs = [e for e in ob.events if e[0] in ("_add_b2b_vsc", "create_vsc", "init_results", "_pd2ppc")]
         for e in (evs if ctx.tier != "quick" else rng.sample(evs, min(len(evs), 5))):
             add(bnet, "runpp", e)
-    model = ctx.coq_eval("c08", "C08.Model", terms, prelude="Open Scope Z_scope.", shard=60)
+    model = ctx.coq_eval("c08", "C08.Model", terms, prelude="Open Scope Z_scope.", shard=60, timeout=900)
     for obs, m, case in zip(obss, model, cases):
         ctx.corr_checked += 1
         mo = model_obs(m)
@@ -345,15 +376,17 @@ def function_level(ctx, rng, base, calc, n_points, exc=J.InjectedFault):
             def __init__(self, *a):
                 super().__init__(*a)
                 stack[0] = stack_names()
+        raised = None
         with J.Patch((k, n, w), Exc) as q:
             try:
                 _quiet(f, net)
             except BaseException as e:
                 if not isinstance(e, (Exception, J.InjectedInterrupt)):
                     raise
+                raised = type(e).__name__
         case = {"calc": calc, "inject": [k, n, w], "exc": exc.__name__, "net": pp.to_json(base)}
         if q.fired:
-            judge(ctx, guard, s0, net, case, stack[0])
+            judge(ctx, guard, s0, net, case, stack[0], raised)
             ctx.case({"calc": calc, "inject": [k, n, w], "exc": exc.__name__, "ndc": len(base.dcline)},
                      nontrivial=len(base.dcline) > 0 or bool(base.trafo.get("tap_dependency_table", pd.Series([False])).any()))
             ctx.count("function_fault_%s" % calc)
@@ -374,20 +407,42 @@ def line_level(ctx, rng, base, calc, n_points):
     for k in ks:
         net = copy.deepcopy(base)
         s0 = S.snapshot(net)
+        raised = None
         with J.LineInjector(k) as li:
             try:
                 _quiet(f, net)
-            except Exception:
-                pass
+            except Exception as e:
+                raised = type(e).__name__
         if li.fired_at is None:
             continue
         if li.double_fault:
             ctx.count("line_double_fault_skipped")
             continue
         case = {"calc": calc, "line_event": k, "at": list(li.fired_at), "net": pp.to_json(base)}
-        judge(ctx, guard, s0, net, case, li.stack)
+        judge(ctx, guard, s0, net, case, li.stack, raised)
         ctx.case({"calc": calc, "line_event": k, "at": list(li.fired_at)}, nontrivial=len(base.dcline) > 0)
         ctx.count("line_fault_%s" % calc)
+
+
+def natural_failures(ctx, nets):
+    """every calculation variant that fails (or may fail) by itself, on every net: snapshot before/after"""
+    for base in nets:
+        for name, f in list(NATURAL.items()) + [(c, CALCS[c]) for c in ("estimate_bb", "contingency")]:
+            net = copy.deepcopy(base)
+            if name in PREPARE:
+                PREPARE[name](net)
+            s0 = S.snapshot(net)
+            guard = user_vsc_with_b2b_name(net)
+            raised = None
+            try:
+                _quiet(f, net)
+            except Exception as e:
+                raised = type(e).__name__
+            case = {"calc": name, "natural": True, "net": pp.to_json(base)}
+            judge(ctx, guard, s0, net, case, [], raised)
+            ctx.case({"calc": name, "natural": True, "raised": raised, "ndc": len(base.dcline), "nbb": int((base.switch.et == "b").sum())},
+                     nontrivial=True)
+            ctx.count("natural_%s_%s" % (name, raised or "returned"))
 
 
 def sessions(ctx, rng, nets, n):
@@ -474,17 +529,33 @@ def run(ctx):
     rng = ctx.rng
     corpus_witnesses(ctx)
     nets = gen_nets(ctx, rng, ctx.n(4, 12))
-    b2b = [N.b2b_net()]
+    # b2b_vsc alone, and together with dclines: both kinds of auxiliary elements in one calculation
+    b2b = [N.b2b_net(), N.b2b_net(n_dcline=1)]
     correspondence(ctx, rng, nets, b2b)
+    natural_failures(ctx, nets)
     for calc in CALCS:
-        heavy = calc in ("contingency", "estimate")
+        heavy = calc in ("contingency", "estimate", "estimate_bb")
         function_level(ctx, rng, nets[0] if calc != "runpp_3ph" else nets[2], calc,
-                       ctx.n(12 if heavy else 40, None if not heavy else 150))
-    function_level(ctx, rng, nets[1], "runpp", ctx.n(25, 200), exc=J.InjectedInterrupt)
-    function_level(ctx, rng, b2b[0], "runpp", ctx.n(6, 80))
+                       ctx.n(10 if heavy else 24, None if not heavy else 150))
+    # faults that are not Exceptions (KeyboardInterrupt-like): handlers written as `except Exception` do not see them
+    function_level(ctx, rng, nets[1], "runpp", ctx.n(20, 200), exc=J.InjectedInterrupt)
+    function_level(ctx, rng, nets[0], "contingency", ctx.n(12, 150), exc=J.InjectedInterrupt)
+    function_level(ctx, rng, nets[0], "estimate_bb", ctx.n(8, 100), exc=J.InjectedInterrupt)
+    for bnet in b2b:
+        function_level(ctx, rng, bnet, "runpp", ctx.n(6, 80))
+        for calc in ("rundcpp",):
+            net = copy.deepcopy(bnet)
+            s0 = S.snapshot(net)
+            raised = None
+            try:
+                _quiet(CALCS[calc], net)
+            except Exception as e:
+                raised = type(e).__name__
+            judge(ctx, user_vsc_with_b2b_name(bnet), s0, net, {"calc": calc, "net": pp.to_json(bnet)}, [], raised)
+            ctx.case({"calc": calc, "b2b": len(bnet.b2b_vsc), "ndc": len(bnet.dcline)}, nontrivial=True)
     for calc in ("runpp", "rundcopp", "sc1ph"):
-        line_level(ctx, rng, nets[1], calc, ctx.n(40, 1500))
-    sessions(ctx, rng, nets, ctx.n(8, 120))
+        line_level(ctx, rng, nets[1], calc, ctx.n(24, 1500))
+    sessions(ctx, rng, nets + ([b2b[1]] if ctx.tier != "quick" else []), ctx.n(8, 120))
 
 
 def replay(ctx, rec):
